@@ -7,6 +7,7 @@ line of the op into class `W`: used for inputs outside the property's domain):
 * `parse <hex text> <rfc822|iso8601|iso8601_basic|auto>`
 * `rt <secs> <fmt> <full|short> <parse fmt>`   format, then parse the text just produced
 * `acc <secs> <ms>`     `aws_date_time_init_epoch_secs(secs + ms/1000.0)`, accessors and epoch views
+* `accd <16 hex digits>`  `aws_date_time_init_epoch_secs` of the double with this bit pattern (finite, ≥ 0, < 2^63)
 * `millis <u64>`        `aws_date_time_init_epoch_millis`, accessors and epoch views
 * `lfmt <offset secs> <zone name hex> <secs> <fmt> <full|short>`   local-time formatters; the process zone of the run
                        (fixed offset, `%Z` name) is given in the op because the model has no environment
@@ -107,6 +108,11 @@ def run (t : List String) : List String :=
     | some secs, some ms =>
       if ms < 1000 then let dt := initEpochSecs secs ms; [s!"P acc {fields dt}", views dt] else ["bad-op"]
     | _, _ => ["bad-op"]
+  | ["accd", bits] => match parseHexNat? bits with
+    | some b => match (if bits.length = 16 then initEpochSecsDouble b else none) with
+      | some dt => [s!"P acc {fields dt}", views dt]
+      | none => ["bad-op"]
+    | none => ["bad-op"]
   | ["millis", ms] => match parseU64? ms with
     | some ms => if ms < u64 then let dt := initEpochMillis ms; [s!"P acc {fields dt}", views dt] else ["bad-op"]
     | none => ["bad-op"]
